@@ -39,24 +39,26 @@ func checkRequireJSON(req *protocol.Request, tagInfo TagInfo) bool {
 	if !strings.EqualFold(utils.FilterContentType(ct), consts.MIMEApplicationJSON) {
 		return false
 	}
-	if !jsonKeyExists(req.Body(), tagInfo.JSONName) {
-		idx := strings.LastIndex(tagInfo.JSONName, ".")
-		if idx > 0 {
-			// There should be a superior if it is empty, it will report 'true' for required
-			if !jsonKeyExists(req.Body(), tagInfo.JSONName[:idx]) {
-				return true
-			}
+	path := splitJSONName(tagInfo.JSONName)
+	if !jsonKeyExists(req.Body(), path) {
+		// There should be a superior if it is empty, it will report 'true' for required
+		if len(path) > 1 && !jsonKeyExists(req.Body(), path[:len(path)-1]) {
+			return true
 		}
 		return false
 	}
 	return true
 }
 
-// jsonKeyExists looks the dotted name up the way the body decoder fills fields: a key
+// jsonKeyExists looks the names up the way the body decoder fills fields: a key
 // that is spelled exactly like the name, or else one that equals it ignoring case
 // (the rule of encoding/json, which sonic follows).
-func jsonKeyExists(body []byte, jsonName string) bool {
-	node, _ := sonic.Get(body, stringSliceForInterface(jsonName)...)
+func jsonKeyExists(body []byte, path []string) bool {
+	exact := make([]interface{}, len(path))
+	for i := range path {
+		exact[i] = path[i]
+	}
+	node, _ := sonic.Get(body, exact...)
 	if node.Exists() {
 		return true
 	}
@@ -65,7 +67,7 @@ func jsonKeyExists(body []byte, jsonName string) bool {
 		return false
 	}
 	cur := &root
-	for _, name := range strings.Split(jsonName, ".") {
+	for _, name := range path {
 		next := cur.Get(name)
 		if !next.Exists() {
 			next = nil
@@ -85,19 +87,11 @@ func jsonKeyExists(body []byte, jsonName string) bool {
 	return cur.Exists()
 }
 
-func stringSliceForInterface(s string) (ret []interface{}) {
-	x := strings.Split(s, ".")
-	for _, val := range x {
-		ret = append(ret, val)
-	}
-	return
-}
-
 func keyExist(req *protocol.Request, tagInfo TagInfo) bool {
 	ct := bytesconv.B2s(req.Header.ContentType())
 	// media types are case-insensitive (the binder lower-cases them before it decodes the body)
 	if !strings.EqualFold(utils.FilterContentType(ct), consts.MIMEApplicationJSON) {
 		return false
 	}
-	return jsonKeyExists(req.Body(), tagInfo.JSONName)
+	return jsonKeyExists(req.Body(), splitJSONName(tagInfo.JSONName))
 }
